@@ -108,6 +108,57 @@ pub fn observe_vs_verbose(vs: &ValueSet) -> J {
     json!({"syntax": format!("{:?}", vs.syntax()), "db": canon(&db), "proto": proto, "beh": cred_behaviour(vs)})
 }
 
+/// Keyed multi-values (maps of collections / maps whose members share an outer key): the stored form as a set of
+/// (outer key, inner identity) pairs.  `None` for syntaxes that are plain sets of scalars.
+///   application passwords   (application uuid, password uuid : label : verdicts)   several per application
+///   oauth2 sessions         (parent session, id) and (resource server, id)        several per parent / per client
+///   sessions                (credential id, session id : state kind)              several per credential
+///   api tokens              (issuer, token id : label)
+///   ssh keys                (tag, tag)                                            map by tag
+///   credentials             (tag, credential uuid)
+pub fn keyed_pairs(vs: &ValueSet) -> Option<Vec<(String, String)>> {
+    let mut v: Vec<(String, String)> = match vs.syntax() {
+        SyntaxType::ApplicationPassword => vs
+            .as_application_password_map()?
+            .iter()
+            .flat_map(|(app, l)| l.iter().map(move |ap| (app.to_string(), format!("{}:{}:{}", ap.uuid, ap.label, password_verdicts(&ap.password)))))
+            .collect(),
+        SyntaxType::Oauth2Session => vs
+            .as_oauth2session_map()?
+            .iter()
+            .flat_map(|(id, s)| {
+                vec![
+                    (format!("parent:{}", s.parent.map(|p| p.to_string()).unwrap_or_else(|| "-".into())), id.to_string()),
+                    (format!("rs:{}", s.rs_uuid), id.to_string()),
+                ]
+            })
+            .collect(),
+        SyntaxType::Session => vs
+            .as_session_map()?
+            .iter()
+            .map(|(id, s)| {
+                let k = match &s.state {
+                    crate::value::SessionState::RevokedAt(_) => "revoked",
+                    crate::value::SessionState::ExpiresAt(_) => "expires",
+                    crate::value::SessionState::NeverExpires => "never",
+                };
+                (format!("cred:{}", s.cred_id), format!("{id}:{k}"))
+            })
+            .collect(),
+        SyntaxType::ApiToken => vs.as_apitoken_map()?.iter().map(|(id, t)| (format!("{:?}", t.issued_by), format!("{id}:{}", t.label))).collect(),
+        SyntaxType::SshKey => vs.as_sshkey_map()?.keys().map(|t| (t.clone(), t.clone())).collect(),
+        SyntaxType::Credential => vs.as_credential_map()?.iter().map(|(t, c)| (t.clone(), c.uuid.to_string())).collect(),
+        _ => return None,
+    };
+    v.sort();
+    Some(v)
+}
+
+/// keyed pairs of every attribute of an entry that has them
+pub fn entry_pairs(e: &EntrySealedCommitted) -> BTreeMap<String, Vec<(String, String)>> {
+    e.get_ava_iter().filter_map(|(a, vs)| keyed_pairs(vs).map(|p| (a.to_string(), p))).collect()
+}
+
 /// Observation of a whole stored entry, split into replicated and non-replicated attributes
 /// (by the server's own schema), plus its liveness class.
 pub fn observe_entry(e: &EntrySealedCommitted, schema: &impl SchemaTransaction) -> (BTreeMap<String, String>, BTreeMap<String, String>) {
